@@ -113,6 +113,20 @@ fn prop_value(t: &mut Tape, st: &mut Stats) -> Result<(), Failure> {
     model::diff_tbl(&m, &tree, Cmp::SERDE).map_err(|e| Failure::new("decode", format!("to_string output does not decode to the value (a value line after a sub-table header?): {e}\n---\n{s1}\n---"), case()))?;
     // fixed point in one step
     let v2: toml::Value = toml::from_str(&s1).map_err(|e| Failure::new("valid", format!("{e}\n{s1}"), case()))?;
+    // "decodes to v" in the value type's own terms: `==` (a table is its entries, whatever order the
+    // map keeps them in; NaN never equals itself and is left to the model comparison above)
+    fn has_nan(v: &toml::Value) -> bool {
+        match v {
+            toml::Value::Float(f) => f.is_nan(),
+            toml::Value::Array(a) => a.iter().any(has_nan),
+            toml::Value::Table(t) => t.values().any(has_nan),
+            _ => false,
+        }
+    }
+    // (integral floats are written with `.0` and negative zero keeps its sign: both compare equal)
+    if !has_nan(&v) && (v2 != v || v != v2) {
+        return Err(Failure::new("decode", format!("from_str(to_string(v)) != v under `==` although the text carries the same data\n---\n{s1}\n---"), case()));
+    }
     let s2 = toml::to_string(&v2).map_err(|e| Failure::new("ser", format!("{e}"), case()))?;
     if s2 != s1 {
         return Err(Failure::new("fixed-point", format!("to_string(from_str(to_string(v))) differs from to_string(v)\n--- first\n{s1}\n--- second\n{s2}"), case()));
